@@ -52,8 +52,16 @@ def main(argv=None):
         print("REPLAY %s: %s" % (rec.get("obligation"), "property holds on this input" if ok else "violation reproduced"))
         return 0 if ok else 1
     try:
+        # the two parts are independent: a crash of one (a checker failure, exit 3 unless a native violation is found) does not
+        # stop the other from looking at the code
         if t1 is not None and not a.t2_only:
-            t1.t1(ctx)
+            try:
+                t1.t1(ctx)
+            except CheckerFailure as e:
+                ctx.checker_failure(str(e))
+            except Exception:
+                traceback.print_exc()
+                ctx.checker_failure("unhandled exception in the T1 part (not a property verdict)")
         if t2 is not None and not a.t1_only:
             t2.t2(ctx)
         if (t1 is None or a.t2_only) and (t2 is None or a.t1_only):
